@@ -33,6 +33,8 @@ func c04Kinds() []c04Kind {
 		{"ref", J{"$ref": "#/$defs/R"}, false},
 		{"nint", J{"type": A{"null", "integer"}}, true},
 		{"strdef", J{"type": "string", "default": "d"}, false},
+		{"map", J{"type": "object", "additionalProperties": J{"type": "string"}}, false},
+		{"anymap", J{"type": "object"}, false},
 	}
 }
 
@@ -64,6 +66,28 @@ func c04Positions(level int) []c04Pos {
 			return J{"type": "object", "properties": J{"c": J{"anyOf": A{o, otherReq}}}, "required": A{"c"}}
 		}, []any{"c"}},
 	}
+	// the "tighten a base type" idiom: the required list sits in an untyped allOf branch (inline base, base by reference)
+	ps = append(ps,
+		c04Pos{"allof-tighten", func(o J) J {
+			base := space.Clone(o)
+			rq := base["required"]
+			delete(base, "required")
+			branches := A{base}
+			if rq != nil {
+				branches = append(branches, J{"required": rq})
+			}
+			return J{"type": "object", "properties": J{"c": J{"allOf": branches}}, "required": A{"c"}}
+		}, []any{"c"}},
+		c04Pos{"allof-tighten-ref", func(o J) J {
+			base := space.Clone(o)
+			rq := base["required"]
+			delete(base, "required")
+			branches := A{J{"$ref": "#/$defs/Base"}}
+			if rq != nil {
+				branches = append(branches, J{"required": rq})
+			}
+			return J{"type": "object", "properties": J{"c": J{"allOf": branches}}, "required": A{"c"}, "$defs": J{"Base": base}}
+		}, []any{"c"}})
 	if level >= 1 {
 		ps = append(ps,
 			c04Pos{"optnested", func(o J) J { return J{"type": "object", "properties": J{"o": o}} }, []any{"o"}},
@@ -85,7 +109,7 @@ func c04(ctx *Ctx) {
 	kinds := c04Kinds()
 	var triples [][]int
 	if ctx.Level == 0 {
-		triples = [][]int{{0, 1, 2}, {3, 4, 5}, {6, 7, 0}}
+		triples = [][]int{{0, 1, 2}, {3, 4, 5}, {6, 7, 0}, {8, 9, 4}}
 	} else {
 		for i := 0; i < len(kinds); i++ {
 			for j := i + 1; j < len(kinds); j++ {
